@@ -14,7 +14,7 @@ FAMS = [
                   {"exec": "asyncio", "p_srv_idle_close": 0.1}, [], [_posts]),
     PoolMixFamily("C01", "poolmix-async-faulty", 2500, 40000,
                   {"exec": "asyncio", "faulty": True, "cancels": True,
-                   "p_srv_idle_close": 0.1}, [], [_posts]),
+                   "p_srv_idle_close": 0.1, "p_h2_events": 0.3}, [], [_posts]),
     PoolMixFamily("C01", "poolmix-threads", 800, 15000,
                   {"exec": "threads", "p_srv_idle_close": 0.1, "max_callers": 4, "protos": ["h1"]},
                   [], [_posts]),
